@@ -2130,13 +2130,13 @@ class t2data(object):
                          'EWT': 'we', 'EWTD': 'we'}
         aut2eosname = ''
         if eos is None:
-            if self.multi:
-                if 'eos' in self.multi:
-                    if self.multi['eos']: aut2eosname = self.multi['eos'].strip()
+            if self.multi and self.multi.get('eos'):
+                aut2eosname = self.multi['eos'].strip()
             elif self.simulator:
+                simulator = self.simulator.strip()
                 for eosname in supported_eos.keys():
-                    if self.simulator.endswith(eosname):
-                        autseosname = eosname
+                    if simulator.endswith(eosname) and len(eosname) > len(aut2eosname):
+                        aut2eosname = eosname
         else:
             if isinstance(eos, int):
                 eos_from_index = {1: 'EW', 2: 'EWC', 3: 'EWA', 4: 'EWAV'}
